@@ -606,3 +606,14 @@ package meta
 //@   setup_only runs before the polling goroutine is started and before the client is handed to its users
 //@ func (*Client).Load
 //@   setup_only called from Open only
+
+// ---- C06: the new owner of an orphaned shard is a function of the metadata, not of map iteration order ----
+// newShardOwner must name the same node on every replica: the least loaded one, and among equally loaded
+// nodes the one with the smallest id. (`visited` is the set of keys the map range has produced so far.)
+//@ func newShardOwner
+//@   props C06
+//@   requires ids_non_negative: all(k_, has(ownerFreqs, k_) ==> k_ >= 0 && ownerFreqs[k_] >= 0 && ownerFreqs[k_] < 1000000000)
+//@   loop 1 invariant none_yet: minId == -1 ==> all(k_, !visited(k_))
+//@   loop 1 invariant best_so_far: minId != -1 ==> minId >= 0 && has(ownerFreqs, minId) && visited(minId) && minFreq == ownerFreqs[minId] && all(k_, visited(k_) ==> (minFreq < ownerFreqs[k_] || (minFreq == ownerFreqs[k_] && minId <= k_)))
+//@   ensures no_node_is_an_error: (result1 != nil) == all(k_, !has(old(ownerFreqs), k_))
+//@   ensures least_loaded_then_smallest_id: result1 == nil ==> has(old(ownerFreqs), result0) && all(k_, has(old(ownerFreqs), k_) ==> (old(ownerFreqs[result0]) < old(ownerFreqs[k_]) || (old(ownerFreqs[result0]) == old(ownerFreqs[k_]) && result0 <= k_)))
